@@ -206,3 +206,20 @@ def all_compositions(N):
                 run += 1
         parts.append(run)
         yield parts
+
+
+def realistic_cfgs():
+    """a few configurations of the size people actually use (the random generators keep frames tiny for speed)"""
+    fb = {"name": "fbank", "num_filts": 40, "low_hz": 20, "high_hz": 8000, "sampling_rate": 16000, "analytic": False}
+    gb = {"name": "gabor", "scaling_function": "mel", "num_filts": 40, "sampling_rate": 16000}
+    gt = {"name": "gammatone", "scaling_function": "bark", "num_filts": 24, "sampling_rate": 8000, "low_hz": 50.0, "high_hz": 3800.0}
+    return [
+        {"name": "stft", "bank": fb, "frame_length_ms": 25, "frame_shift_ms": 10, "frame_style": "centered", "include_energy": False, "pad_to_nearest_power_of_two": True,
+         "window_function": "hanning", "use_log": True, "use_power": True, "kaldi_shift": True},
+        {"name": "stft", "bank": gb, "frame_shift_ms": 10, "frame_style": "causal", "include_energy": True, "use_log": True, "use_power": False},
+        {"name": "stft", "bank": gt, "frame_length_ms": 20, "frame_shift_ms": 10, "include_energy": True, "pad_to_nearest_power_of_two": False, "use_log": False, "use_power": True},
+        {"name": "stft", "bank": dict(fb, analytic=True), "frame_length_ms": 25.0625, "frame_shift_ms": 10.0625, "frame_style": "causal", "pad_to_nearest_power_of_two": False,
+         "window_function": "hamming", "use_log": True, "use_power": False},
+        {"name": "si", "bank": gb, "frame_shift_ms": 10, "frame_style": "centered", "include_energy": True, "use_log": True, "use_power": False},
+        {"name": "si", "bank": gt, "frame_shift_ms": 5, "frame_style": "causal", "use_log": True, "use_power": True},
+    ]
